@@ -330,6 +330,12 @@ func propC20HTTP(t *rapid.T) {
 		before := al.Level()
 		req := httptest.NewRequest("GET", r.Target, strings.NewReader(r.Body))
 		req.Method = r.Method
+		if rapid.IntRange(0, 3).Draw(t, "streamedBody") == 0 {
+			// a body of unknown length (chunked transfer encoding): net/http reports ContentLength -1
+			req.Body = io.NopCloser(strings.NewReader(r.Body))
+			req.ContentLength = -1
+			req.TransferEncoding = []string{"chunked"}
+		}
 		if r.CType != "" {
 			req.Header.Set("Content-Type", r.CType)
 		}
